@@ -847,3 +847,74 @@ Proof.
   destruct (s_nhb H >? 1) eqn:G; cbn [negb orb andb Z.leb Z.compare Pos.compare Pos.compare_cont]; [|reflexivity].
   replace (7318 <=? 4096 * s_nhb H) with true by lia. reflexivity.
 Qed.
+
+(* ---------------- which stored arrays are written (duplicate header words) ---------------- *)
+(* a well-formed list of stored keys: distinct words; every entry is an owner (ref = k) or refers to an EARLIER owner *)
+Fixpoint table_ok_from (seen : list Z) (T : list (Z * Z)) : bool :=
+  match T with
+  | [] => true
+  | (k, r) :: t =>
+    negb (existsb (Z.eqb k) (map fst t)) &&
+    ((r =? k) || existsb (Z.eqb r) seen) && table_ok_from (if r =? k then k :: seen else seen) t
+  end.
+Definition table_ok (T : list (Z * Z)) : bool := table_ok_from [] T.
+Definition owners (T : list (Z * Z)) : list (Z * Z) := filter is_owner T.
+
+Lemma footer_filter_owners T : filter (fun e => negb (crp_footer_skip (fst e) (snd e))) T = owners T.
+Proof.
+  unfold owners. apply filter_ext. intros [k r]. unfold crp_footer_skip, is_owner. cbn [fst snd]. apply negb_involutive.
+Qed.
+
+Lemma owner_rank_app P L r acc : ~ In r (map fst P) ->
+  owner_rank (P ++ L) r acc = owner_rank L r (acc + Z.of_nat (length (owners P))).
+Proof.
+  revert acc. induction P as [|e P IH]; intros acc Hn; cbn [app owner_rank owners filter length map In] in *.
+  - f_equal. lia.
+  - replace (fst e =? r) with false by (symmetry; apply Z.eqb_neq; intro E; apply Hn; left; exact E).
+    rewrite IH by (intro I; apply Hn; right; exact I). unfold owners.
+    destruct (is_owner e); cbn [length]; f_equal; lia.
+Qed.
+
+Lemma distinct_tail k (T : list (Z * Z)) : existsb (Z.eqb k) (map fst T) = false -> ~ In k (map fst T).
+Proof.
+  intros E I. assert (existsb (Z.eqb k) (map fst T) = true); [|congruence].
+  apply existsb_exists. exists k. split; [exact I | apply Z.eqb_refl].
+Qed.
+
+(* the arrays written are the source's stored arrays 0, 1, ..., (number of owners) - 1, each once, in order *)
+Lemma footer_arrays_from P S seen : table_ok_from seen S = true -> (forall k, In k (map fst S) -> ~ In k (map fst P)) ->
+  map (fun e => owner_rank (P ++ S) (snd e) 0) (owners S)
+  = zrange_nat (Z.of_nat (length (owners P))) (length (owners S)).
+Proof.
+  revert P seen. induction S as [|[k r] S IH]; intros P seen Hok Hd; [reflexivity|].
+  cbn [table_ok_from] in Hok. rewrite !andb_true_iff in Hok. destruct Hok as ((Hk & Hr) & Hrest).
+  apply negb_true_iff in Hk.
+  assert (HdS : forall k', In k' (map fst S) -> ~ In k' (map fst (P ++ [(k, r)]))).
+  { intros k' I J. rewrite map_app, in_app_iff in J. destruct J as [J|[J|[]]].
+    - apply (Hd k'); [right; exact I | exact J].
+    - cbn in J. subst k'. exact (distinct_tail k S Hk I). }
+  specialize (IH (P ++ [(k, r)]) _ Hrest HdS). rewrite <- app_assoc in IH. cbn [app] in IH.
+  unfold owners in *. cbn [filter]. change (is_owner (k, r)) with (r =? k).
+  destruct (r =? k) eqn:E.
+  - apply Z.eqb_eq in E. subst r. cbn [map length zrange_nat]. f_equal.
+    + rewrite owner_rank_app by (apply Hd; left; reflexivity). cbn [owner_rank fst]. rewrite Z.eqb_refl. unfold owners. lia.
+    + rewrite IH. rewrite filter_app, app_length. cbn [filter]. unfold is_owner. cbn [fst snd]. rewrite Z.eqb_refl.
+      cbn [length]. f_equal. lia.
+  - rewrite IH. rewrite filter_app, app_length. cbn [filter]. unfold is_owner. cbn [fst snd]. rewrite E. cbn [length].
+    f_equal. lia.
+Qed.
+
+Theorem crop_footer_arrays_thm T : table_ok T = true ->
+  footer_arrays T = zrange 0 (Z.of_nat (length (owners T))).
+Proof.
+  intro Hok. unfold footer_arrays. rewrite footer_filter_owners.
+  pose proof (footer_arrays_from [] T [] Hok (fun _ _ I => I)) as E. cbn [app owners filter length] in E.
+  rewrite E. unfold zrange. rewrite Z.sub_0_r, Nat2Z.id. reflexivity.
+Qed.
+
+Corollary crop_footer_arrays_nha H T : table_ok T = true -> Z.of_nat (length (owners T)) = s_nha H ->
+  footer_arrays T = zrange 0 (s_nha H) /\ Z.of_nat (length (footer_arrays T)) = s_nha H.
+Proof.
+  intros Hok Hn. rewrite (crop_footer_arrays_thm T Hok), Hn. split; [reflexivity|].
+  unfold zrange. rewrite zrange_nat_length. rewrite <- Hn. lia.
+Qed.
